@@ -966,10 +966,17 @@ class Machine:
         elif c == "interpolate-grid-endpoints":
             which = st.draw(0, 5, "which-end")
             g = np.linspace(x[0], x[-1], n + 2)
+            # a move that the magnitude of x absorbs (x ~ 1e14, +0.001) would leave a perfectly valid grid
             if which in (0, 2):
-                g[0] = g[0] + st.pick((-1.0, 0.001, (g[1] - g[0]) / 2))
+                g0 = g[0]
+                g[0] = g0 + st.pick((-1.0, 0.001, (g[1] - g0) / 2))
+                if g[0] == g0:
+                    g[0] = g0 + (g[1] - g0) / 2
             if which in (1, 2):
-                g[-1] = g[-1] + st.pick((1.0, -0.001, -(g[-1] - g[-2]) / 2))
+                g1 = g[-1]
+                g[-1] = g1 + st.pick((1.0, -0.001, -(g1 - g[-2]) / 2))
+                if g[-1] == g1:
+                    g[-1] = g1 - (g1 - g[-2]) / 2
             if which == 3:
                 g = g[::-1].copy()                               # covers the range, but starts at the wrong end
             if which == 4:
@@ -1034,7 +1041,8 @@ class Machine:
             i = st.draw(0, n - 2, "i")
             bogus = float((x[i] + x[i + 1]) / 2)
             k = st.draw(0, 2, "which")
-            args = (bogus, None) if k == 0 else ((None, bogus) if k == 1 else (float(x[-1]) + 1.0, None))
+            beyond = float(x[-1]) + max(1.0, float(x[-1] - x[-2]))          # never absorbed by the magnitude of x
+            args = (bogus, None) if k == 0 else ((None, bogus) if k == 1 else (beyond, None))
             if st.coin(1, 3, "with-step"):
                 args = args + (st.draw(1, 3, "step"),)
             d["call"] = lambda wv: wv.slice_by_value(*args)
